@@ -10,6 +10,8 @@ mod c16;
 mod engine;
 mod hllm;
 mod c02;
+mod spec_hll;
+mod c03;
 mod thetam;
 mod c04;
 mod cpcm;
@@ -66,6 +68,7 @@ fn main() {
         "C16" => c16::run(&Ctx::new("C16", tier)),
         "C05" => c05::run(&Ctx::new("C05", tier).with_filter(|k| !k.starts_with("cpc.bounds"))),
         "C04" => c04::run(&Ctx::new("C04", tier).with_filter(|k| !k.starts_with("theta.bounds"))),
+        "C03" => c03::run(&Ctx::new("C03", tier)),
         "C02" => c02::run(&Ctx::new("C02", tier).with_filter(|k| !k.starts_with("hll.bounds"))),
         other => {
             eprintln!("unknown check {other}");
